@@ -158,6 +158,7 @@ func propC01(j *Job) {
 		cases = append(cases, famW4(modes, 1)...)
 		cases = append(cases, famW5(modes, 2)...)
 		cases = append(cases, famKS(modes, 2, false, []time.Duration{0}, 3)...)
+		cases = append(cases, famZ6([]int{33000})...)
 	}
 	runCases(j, cases, func(spec *xferSpec) func(m *Sim, x *Exec, r *xferResult) {
 		return deliveryFinal(spec, false, monOpts{})
